@@ -82,6 +82,14 @@ TRUSTED = [
     ".5 -> half); int ** -int -> 1 / ofNat (a ^ e); x ** y -> pow; pi -> pi; `<` -> LtTest.lt, raise ValueError -> "
     "Except.error; Hz=None -> Option; the default of a StrategyDict is the strategy registered first (also extra check "
     "default:erb on the imported module)",
+    "translator, gammatone.sampled (same file): the body must be `assert eta >= 1`, then `name = expr` lines and the two "
+    "`f /= abs(f.freq_response(x))`, then `return CascadeFilter([f0] + [fn] * (<count>))`.  Vocabulary trusted: a sum / difference "
+    "of scalars and `scalar * z ** -k` terms = the dense coefficient list (k-th entry, `- t` -> `-(t)`); "
+    "`(num / den).diff(n=e, mul_after=-z)` followed by `ZFilter(filt.numpoly) / den` = mk (diffNum num den e) den, where diffNum / "
+    "diffStep is the HAND model of the loop of ZFilter.diff in lazy_filters.py (not translated); `number / den` = mk [number] den; "
+    "`f /= abs(f.freq_response(x))` = normalise f x (hand model of freq_response: Horner evaluation at exp(-jx)); "
+    "`[a] + [b] * k` = a :: List.replicate k b; defaults phase=<int>, eta=<int> of the def line -> gammatone_sampled_call "
+    "(theorems src_gammatone_sampled_is_model, src_gammatone_sampled_call_is_model)",
     "hand-written generic Lean transcription ALV/Model/C13.lean of the design strategies (modelled, not verified: "
     "ZFilter/Poly operator plumbing that turns the design expression into coefficients, thub/Stream broadcasting)",
     "Float evaluation of the model (Lean runtime, C libm) vs CPython floats: the model copies the code's operation order, so the "
@@ -170,13 +178,15 @@ MANIFEST = {"text": "Lean 4 theorems (104, no sorry/axiom, no PENDING statement)
                     "(src_reads_are_constant_designs, src_instants_are_the_design_formulas, src_programs_wellformed); erb.gm90 / erb.mg83 (formula, "
                     "Hz=None refusal below 7, unit 1, strategy table and default) and gammatone_erb_constants are regenerated too and the "
                     "closed forms are restated about the regenerated text (src_erb_closed_forms, src_erb_call, "
-                    "src_gammatone_erb_constants_closed_form); tied to /repo by a "
+                    "src_gammatone_erb_constants_closed_form); gammatone.sampled (body and defaults) is regenerated and theorem 7k restated about it "
+                    "(src_gammatone_sampled_all_sections; ZFilter.diff's loop stays the hand model diffNum); tied to /repo by a "
                     "differential correspondence (Float twin in the code's operation order, coefficients within 4 ulp - measured "
                     "bit-exact) run on every check over call shapes, numeric spellings, units and boundary cut-offs",
             "technique": "Lean 4 proof over R of generic [TrigField] design definitions + TRANSLATOR (harness/props/c13_tr.py: the 16 "
                          "thub-based strategy bodies of lazy_filters.py / lazy_auditory.py -> ALV/Gen/C13Src.lean on every run, proved equal "
                          "to the model's stream programs; erb.gm90 / erb.mg83 with the Hz=None branch and gammatone_erb_constants -> "
-                         "generic scalar definitions proved equal to the model's functions) + Float twin tied to the implementation "
+                         "generic scalar definitions proved equal to the model's functions; gammatone.sampled -> coefficient lists / diffNum / "
+                         "normalise / cascade, proved equal to gammatoneSampled) + Float twin tied to the implementation "
                          "+ histories of designs sharing parameter objects (Lean state machine = state-free spec, proved) "
                          "+ long-delay / long-run time-domain runs against the difference equations"}
 
